@@ -45,8 +45,7 @@ def _cond_calls(ctx, meth):
     return out
 
 
-def rule_r1(ctx):
-    rid = "C12.R1"
+def rule_r1(ctx, rid="C12.R1"):
     ctx.r.rule(rid, "write_soon: the append and the counter increment are dominated by the wait routine and by the post-wake disconnect test that raises")
     p = ctx.p
     cg = get_callgraph(p)
@@ -379,7 +378,14 @@ def rule_r6(ctx, rid="C12.R6"):
         ctx.r.ok(rid, "no flush is skipped while the producer's wait predicate holds (%d settings evaluated)" % checked, hw.loc(nones[0].ast))
 
 
-RULES = [rule_r1, rule_r2, rule_r3, rule_r4, rule_r5, rule_r6]
+def rule_r7(ctx):
+    """Shared with C04.R1: 'never corrupts or reorders the output' - every access to the output state (buffer list,
+    counters) by the producer and by the draining I/O thread holds the output lock along its call chain."""
+    from . import c04
+    c04.rule_r1(ctx, rid="C12.R7")
+
+
+RULES = [rule_r1, rule_r2, rule_r3, rule_r4, rule_r5, rule_r6, rule_r7]
 
 from ..selftest import M, T, V  # noqa: E402
 
